@@ -387,6 +387,7 @@ def run(repo: Repo, rep: Report, tier: str) -> None:
     _c15._aliases(repo, Only(rep, {"R15.7"}))
     from ..core import helper_contracts as _hc
     _hc.report(repo, rep, "R17.7", _hc.type_name_identifier_contract(repo), "mashumaro.core.meta.code.builder::CodeBuilder.get_type_name_identifier")
+    _hc.report(repo, rep, "R17.8", _hc.add_type_modules_contract(repo), "mashumaro.core.meta.code.builder::CodeBuilder.add_type_modules")
 
 def _skel(it) -> str:
     return " | ".join(l.tmpl.skeleton() for l in it.lines)
@@ -412,3 +413,6 @@ LEVEL_TEXT += _ADDENDUM
 _ADD2 = ' R17.7: contract of get_type_name_identifier (local types are bound by identity under a sanitised name, others referred to by dotted name).'
 EXPLANATION += _ADD2
 LEVEL_TEXT += _ADD2
+_ADD4 = ' R17.8: contract of add_type_modules (the module of every type, of its arguments, Literal values, TypeVar constraints and bound is registered; nothing else cuts the walk).'
+EXPLANATION += _ADD4
+LEVEL_TEXT += _ADD4
